@@ -61,7 +61,9 @@ var errC14 = errors.New("verif: injected writer failure")
 // errors.Is must go through its Is method.
 type c14SliceErr []error
 
-func (e c14SliceErr) Error() string { return "verif: injected writer failure (list of " + fmt.Sprint(len(e)) + ")" }
+func (e c14SliceErr) Error() string {
+	return "verif: injected writer failure (list of " + fmt.Sprint(len(e)) + ")"
+}
 func (e c14SliceErr) Is(t error) bool {
 	x, ok := t.(c14SliceErr)
 	return ok && len(x) == len(e) && len(e) > 0 && e[0] == x[0]
@@ -76,7 +78,7 @@ type failWriter struct {
 	once     bool
 	failed   int
 	sliceErr bool // the error returned is of an uncomparable type
-	perCall  int // >0: accept at most perCall bytes per Write call (legal short-write-free chunking is done by returning full count)
+	perCall  int  // >0: accept at most perCall bytes per Write call (legal short-write-free chunking is done by returning full count)
 	calls    int
 	everyErr bool // fail on every call from the start
 }
